@@ -836,6 +836,34 @@ class GenJumps(Gen):
                  "body": [inner, {"k": "print", "items": [("e", ("lit", "$", "inner done")), (";",), ("e", ("var", "NX%"))]}], "next_var": True},
                 self.trace("after loops")]
 
+    def resume_into_block(self):
+        """RESUME label where the label sits inside a FOR body or a SELECT CASE block of the main module (its own handler)."""
+        r = self.rng
+        h = self.new_label("Hb")
+        lab = self.new_label("Rb")
+        self.loop_id += 1
+        n1, n2 = "N%d%%" % self.loop_id, "M%d%%" % self.loop_id
+        fault = {"k": "assign", "lhs": ("var", "A%"), "rhs": ("bin", "/", ("lit", "%", 10), ("var", "Z%"))}
+        inner_for = {"k": "for", "var": n2, "lo": ("lit", "%", 1), "hi": ("lit", "%", 2), "step": None,
+                     "body": [{"k": "print", "items": [("e", ("lit", "$", "inner")), (";",), ("e", ("var", n2))]}], "next_var": True}
+        body_handler = [{"k": "print", "items": [("e", ("lit", "$", h + " ERR")), (";",), ("e", ("call", "ERR", []))]},
+                        {"k": "assign", "lhs": ("var", "Z%"), "rhs": ("lit", "%", 2)}, {"k": "resume", "mode": "label", "label": lab}]
+        self.handlers.append((h, body_handler))
+        pre = [{"k": "assign", "lhs": ("var", "Z%"), "rhs": ("lit", "%", 0)}, {"k": "onerror", "mode": "goto", "label": h}]
+        post = [{"k": "onerror", "mode": "zero"}, self.trace("after block")]
+        self.handler_active = False
+        if r.random() < 0.5:
+            # label in a FOR body, the error inside a SELECT CASE block (and sometimes a nested FOR) of that body
+            sel = {"k": "select", "subj": ("var", n1), "cases": [([("val", ("lit", "%", 1)), ("val", ("lit", "%", 2))], [self.trace("in case"), fault, self.trace("after fault")])], "else": None}
+            body = [{"k": "label", "name": lab}, self.trace("at " + lab), sel, inner_for]
+            return pre + [{"k": "for", "var": n1, "lo": ("lit", "%", 1), "hi": ("lit", "%", 2), "step": r.choice([None, ("lit", "%", 1)]), "body": body, "next_var": True},
+                          {"k": "print", "items": [("e", ("lit", "$", "counters")), (";",), ("e", ("var", n1)), (";",), ("e", ("var", n2))]}] + post
+        # label in a SELECT CASE block, the error inside a FOR body of that block
+        loop = {"k": "for", "var": n1, "lo": ("lit", "%", 1), "hi": ("lit", "%", 2), "step": None, "body": [self.trace("in loop"), fault, self.trace("after fault")], "next_var": True}
+        arm = [{"k": "label", "name": lab}, self.trace("at " + lab), loop, inner_for]
+        return pre + [{"k": "select", "subj": ("lit", "%", 2), "cases": [([("val", ("lit", "%", 1))], [self.trace("case 1 (must not run)")]), ([("val", ("lit", "%", 2))], arm)],
+                       "else": [self.trace("case else (must not run)")]}] + post
+
     def sub_gosub(self):
         """GOSUB / RETURN inside SUBs: they are local to the call."""
         r = self.rng
@@ -907,6 +935,8 @@ class GenJumps(Gen):
             elif x < 0.47:
                 if self.handler_active == "goto_repair" and self.resume_mode == "retry":
                     main += self.header_fault()
+                elif r.random() < 0.4:
+                    main += self.resume_into_block()
                 else:
                     main += self.sub_gosub()
             elif x < 0.55:
